@@ -152,7 +152,7 @@ def known_class(ctx, w, leaf, no_ext, io, sl):
 
 # ------------------------------------------------------------------ level 3: the CLI on a real file system
 
-def cli_world(sb, rng, presets, kind):
+def cli_world(sb, rng, presets, kind, env):
     """Create files under the sandbox, return (World as seen from cwd=proj, leaf spelling, tag, policy args)."""
     proj = os.path.realpath(sb.proj)
     other = os.path.join(os.path.realpath(sb.base), "other")
@@ -274,7 +274,7 @@ def cli_world(sb, rng, presets, kind):
         w.remotes[url] = text
         if text is not None:
             w.rvalues[url] = ("V", rv)
-            sb.write(".sloc-guard/remote-configs/%s.toml" % sha256_hex(url), text)
+            prime_cache(env, sb.proj, url, text)       # the offline cache, filled through the real fetch path
     # leaf spelling relative to cwd = proj, or absolute
     spell = leaf
     if leaf.startswith(proj + "/") and rng.random() < 0.6:
@@ -324,7 +324,7 @@ def run_cli(ctx, env, n, st):
         kind = rng.choice(["chain", "chain", "chain", "graph", "graph", "symlink", "remote", "preset", "case", "case", "badkey"])
         no_ext = rng.random() < 0.15
         with Sandbox("sgv-c16-") as sb:
-            w, leaf, tag = cli_world(sb, rng, env["presets"], kind)
+            w, leaf, tag = cli_world(sb, rng, env["presets"], kind, env)
             st["hist"]["cli:" + tag + ("+noext" if no_ext else "")] = st["hist"].get("cli:" + tag + ("+noext" if no_ext else ""), 0) + 1
             st["evals"] += 1
             m, _ = resolve_lines(w, leaf, no_ext)
@@ -527,7 +527,7 @@ def run_corpus(ctx, env, st):
             for name, text in j["files"].items():
                 sb.write("cfg/" + name, text)
             for url, body in j.get("cache", {}).items():
-                sb.write(".sloc-guard/remote-configs/%s.toml" % sha256_hex(url), body)
+                prime_cache(env, sb.proj, url, body)
             cmd = {"show": ["config", "show", "--format", "json", "-c", "cfg/" + j["leaf"]],
                    "validate": ["config", "validate", "-c", "cfg/" + j["leaf"]],
                    "check": ["check", "--no-sloc-cache", "-c", "cfg/" + j["leaf"], "."]}[j.get("command", "show")]
